@@ -30,8 +30,9 @@ structure Out (α : Type) where
   azi : α
   rk : α
 
-/-- `rk = !(sig <= eps_) ? m / s : 1` -/
-def azeqRk (sig s m eps : α) : α := if RealLike.leb sig eps then RealLike.ofNat 1 else m / s
+/-- `rk = !(sig <= eps_) && s != 0 ? m / s : 1` (the `s != 0` guard is fix 69fc1c4) -/
+def azeqRk (sig s m eps : α) : α :=
+  if RealLike.leb sig eps || RealLike.eqb s (RealLike.ofNat 0) then RealLike.ofNat 1 else m / s
 
 /-- `AzimuthalEquidistant::Forward`: `sincosd(azi0, x, y); x *= s; y *= s` -/
 def azeqForward (K : Kern α) (eps : α) : Out α :=
